@@ -19,7 +19,11 @@ void AnnotateIgnoreWritesEnd(const char *f, int l);
 
 namespace sim {
 
+static thread_local int t_harness_depth = 0;
+bool in_harness_scope() { return t_harness_depth > 0; }
+
 HarnessScope::HarnessScope() {
+    ++t_harness_depth;
 #ifdef SIM_TSAN
     AnnotateIgnoreSyncBegin(__FILE__, __LINE__);
     AnnotateIgnoreReadsBegin(__FILE__, __LINE__);
@@ -27,6 +31,7 @@ HarnessScope::HarnessScope() {
 #endif
 }
 HarnessScope::~HarnessScope() {
+    --t_harness_depth;
 #ifdef SIM_TSAN
     AnnotateIgnoreWritesEnd(__FILE__, __LINE__);
     AnnotateIgnoreReadsEnd(__FILE__, __LINE__);
@@ -54,6 +59,7 @@ struct Session {
 
 Session *g_session = nullptr;
 thread_local int t_self = -1;
+thread_local unsigned t_alloc_count = 0;
 
 int choose(Session &S, int yielder) {
     std::vector<int> runnable;
@@ -93,6 +99,14 @@ int choose(Session &S, int yielder) {
 } // namespace
 
 bool in_scheduled_thread() { return t_self >= 0 && g_session != nullptr; }
+
+void alloc_yield_hook() {
+    if (t_self < 0 || !g_session || t_harness_depth > 0) return;
+    unsigned k = g_session->cfg.alloc_period;
+    if (!k) return;
+    if (++t_alloc_count % k) return;
+    yield_point(Y_ALLOC);
+}
 int sched_self() { return t_self; }
 
 void yield_point(int site) {
